@@ -57,7 +57,7 @@ COMPONENTS_STUB = ["zarr sync()/loop thread/thread pool -> SimLoop", "LocalStore
 EXPECTED_PROBES = ["split_at_zero", "double_interrupt", "clone_then_save", "clone_fallback_path_taken",
                    "plateau_scheduler_reduced_lr", "dataset_optimizer_present", "reload_zip",
                    "reload_dir", "opt_sgd", "opt_adam", "opt_adamw", "sched_cyclic", "sched_linear",
-                   "sched_exp", "obj_potential", "obj_pure_phase", "modes2", "slices2", "sched_cyclic_momentum", "sched_plateau_with_counters", "opt_extra_betas", "opt_extra_amsgrad", "opt_extra_weight_decay", "opt_extra_nesterov", "long_first_segment", "reload_in_another_interpreter",
+                   "sched_exp", "obj_potential", "obj_pure_phase", "modes2", "slices2", "sched_cyclic_momentum", "sched_plateau_with_counters", "opt_extra_betas", "opt_extra_amsgrad", "opt_extra_weight_decay", "opt_extra_nesterov", "long_first_segment", "reload_in_another_interpreter", "device_move_cpu_to_cpu",
                    "clone_independence_checked", "clone_fallback_natural",
                    "save_then_continue_same_object", "reset_after_interruption"]
 RTOL = 1e-5   # candidate threshold; a candidate is a violation only beyond NOISE_FACTOR x measured drift
@@ -210,7 +210,7 @@ def gen(rng: Rng, tier, i):
     for j in range(rng.pick([2, 3, 4, 5])):
         r = rng.fork(("op", j))
         k = r.weighted([("recon", 4), ("reload", 4), ("clone", 2), ("clone_fallback", 1),
-                        ("save_keep", 1), ("recon_reset", 0.5)])
+                        ("save_keep", 1), ("recon_reset", 0.5), ("to_cpu", 0.8)])
         if k == "recon":
             ops.append({"op": "recon", "n": r.pick([1, 1, 2, 3])})
         elif k == "recon_reset":
@@ -602,6 +602,17 @@ def run(plan):
                 if first:
                     continue  # nothing to interrupt before the first reconstruct call
                 old = _state(R)
+                if k == "to_cpu":
+                    # a device move that moves nothing (cpu -> cpu): re-binds optimizers/schedulers
+                    R.to("cpu")
+                    d0 = _cmp_exact(old, _state(R))
+                    if d0:
+                        viol("interruption_not_lossless", f"{tag}: .to('cpu') changed {d0}",
+                             "interruption_not_lossless:to_cpu:" + d0[0].split(" ")[0])
+                    bump(probes, "device_move_cpu_to_cpu")
+                    interrupted += 1
+                    last_was_interrupt = True
+                    continue
                 if k == "save_keep":
                     # save, keep working with the SAME live object: saving must not disturb it
                     name = f"keep{j}.zip" if op["store"] == "zip" else f"keep{j}"
